@@ -356,5 +356,18 @@ pub fn requests(prop: &str, fl: &str, g: &GraphSpec, thorough: bool, rng: Option
             }
         }
     }
+    // the order of the builder's configuration calls (`min/max`, `transpose`, `target`) must not matter: `kind~n`
+    let mut v = 0usize;
+    for line in l.iter_mut() {
+        if let Some(rest) = line.strip_prefix("search ") {
+            if !rest.contains('@') {
+                v += 1;
+                if v % 3 != 0 {
+                    let (kind, tail) = rest.split_once(' ').unwrap();
+                    *line = format!("search {kind}~{} {tail}", v % 6);
+                }
+            }
+        }
+    }
     l
 }
